@@ -1,22 +1,47 @@
 #!/usr/bin/env python3
-# Inserts/refreshes "//@   sig <receiver and parameter names>" under every "//@ func" header of the contract files,
-# from `sxv sigs` (names in the current source). Run once when a contract is written; contracts then keep their
-# meaning when a receiver or parameter is renamed later.
+# Inserts/refreshes the "sig" (receiver and parameter names) and "locals" (local variables in declaration order, with
+# types) lines under every "//@ func" header of the contract files, from `sxv sigs` (names in the current source).
+# Run when a contract is written or changed: contracts then keep their meaning when a receiver, a parameter or a
+# local variable they mention is renamed later. "locals" is only written where the contract mentions a local.
 import subprocess, collections, re, sys
 out = subprocess.run(['/verif/bin/sxv', 'sigs'], capture_output=True, text=True).stdout
 by = collections.defaultdict(dict)
 for l in out.splitlines():
-    f, h, ns = l.split('\t')
-    by[f][h] = ns
+    f, h, ns, ls = l.split('\t')
+    by[f][h] = (ns, ls)
+def blocks(src):
+    b = {}; cur = None
+    for l in src:
+        mm = re.match(r'^//@ func (.+?)\s*$', l)
+        if mm:
+            cur = mm.group(1); b[cur] = []
+        elif cur is not None and l.startswith('//@') and not re.match(r'^//@\s+(sig|locals)\b', l):
+            b[cur].append(l)
+        elif not l.startswith('//@'):
+            cur = None
+    return b
 for f, m in by.items():
-    src = open(f).read().split('\n'); res = []; i = 0; n = 0
+    src = open(f).read().split('\n'); res = []; i = 0; n = 0; nl = 0
+    bl = blocks(src)
     while i < len(src):
         l = src[i]; res.append(l)
         mm = re.match(r'^//@ func (.+?)\s*$', l)
         if mm and mm.group(1) in m:
-            if i + 1 < len(src) and re.match(r'^//@\s+sig\b', src[i+1]):
-                i += 1
-            res.append('//@   sig ' + m[mm.group(1)]); n += 1
+            ns, ls = m[mm.group(1)]
+            j = i + 1
+            while j < len(src) and re.match(r'^//@\s+(sig|locals)\b', src[j]):
+                j += 1
+            # the rest of this contract
+            k = j; block = []
+            while k < len(src) and src[k].startswith('//@') and not src[k].startswith('//@ func') :
+                block.append(src[k]); k += 1
+            text = '\n'.join(block + [x for h2, b2 in bl.items() if h2.startswith(mm.group(1) + '$') for x in b2])
+            if ns:
+                res.append('//@   sig ' + ns); n += 1
+            names = [x.split(':')[0].strip() for x in ls.split(';;') if x.strip()]
+            if any(re.search(r'\b%s\b' % re.escape(x), text) for x in names):
+                res.append('//@   locals ' + ls); nl += 1
+            i = j - 1
         i += 1
     open(f, 'w').write('\n'.join(res))
-    print(f, n)
+    print(f, n, nl)
